@@ -13,7 +13,7 @@ from . import c02, c08
 
 PROPERTY = "C19"
 RULE = (
-    "cases are arcs with radii ratio up to 100, any rotation, extents from 1e-3 to 2.5 pi in both directions (centre "
+    "cases are arcs with radii ratio up to 100, any rotation, extents from 1e-3 to 6 pi (three turns) in both directions (centre "
     "form) and endpoint-form arcs of all classes, converted with as_cubic_curves / as_quad_curves at the default and "
     "at explicit subdivision counts, fresh or after having been rotated / scaled / mirrored by a matrix, alone and embedded at a generated position of a path converted with "
     "approximate_arcs_with_cubics/quads(error). Non-trivial = eccentric (ratio > 1.5) rotated arc with negative or "
@@ -27,7 +27,7 @@ ASSUMPTIONS = [
     "finer subdivision: the measured error for 2n slices may exceed the error for n slices only by rounding (1e-9 relative to the radius)",
 ]
 TOLERANCES = {"cubic": 1e-3, "quadratic": 1e-2, "exact ends/joins": 0.0}
-MANDATORY_LABELS = {"quick": ["mode:cubic", "mode:quad", "n:default", "n:explicit", "embedded", "embedded:several-arcs", "embedded:zero-extent-arc", "sweep:negative", "sweep:beyond-full-turn", "sweep:zero", "sweep:tiny", "history:mirrored", "history:rotated-scaled"]}
+MANDATORY_LABELS = {"quick": ["mode:cubic", "mode:quad", "n:default", "n:explicit", "embedded", "embedded:several-arcs", "embedded:zero-extent-arc", "sweep:negative", "sweep:beyond-full-turn", "sweep:1.5-turns-or-more", "sweep:zero", "sweep:tiny", "history:mirrored", "history:rotated-scaled"]}
 MANDATORY_LABELS["thorough"] = MANDATORY_LABELS["quick"]
 
 
@@ -41,7 +41,7 @@ def decode(d):
         rx = abs(gen.loguniform(d, -1, 3, False))
         ratio = d.choice([1.0, 1.5, 2.0, 5.0, 10.0, 100.0]) if d.bool() else 10.0 ** d.uniform(0.0, 2.0)
         ry = rx / ratio if d.bool() else rx * ratio
-        sweep = d.choice([0.0, 1e-3, 0.01, 0.5, math.pi / 6, math.pi / 6 + 1e-9, 1.0, math.pi / 2, 3.0, math.pi, 4.0, 2 * math.pi, 7.0, 2.5 * math.pi]) if d.bool() else d.uniform(1e-3, 2.5 * math.pi)
+        sweep = d.choice([0.0, 1e-3, 0.01, 0.5, math.pi / 6, math.pi / 6 + 1e-9, 1.0, math.pi / 2, 3.0, math.pi, 4.0, 2 * math.pi, 7.0, 2.5 * math.pi, 3 * math.pi, 4 * math.pi, 5 * math.pi]) if d.bool() else d.uniform(1e-3, 2.5 * math.pi if d.chance(3, 4) else 6 * math.pi)
         if d.bool():
             sweep = -sweep
         arc = ["E", gen.point(d), gen.r6(rx), gen.r6(ry), gen.angle_deg(d), gen.r6(d.uniform(-3.2, 3.2)), sweep]
@@ -153,6 +153,8 @@ def check(case):
         o.label("sweep:negative")
     if abs(sweep) > 2 * math.pi:
         o.label("sweep:beyond-full-turn")
+    if abs(sweep) >= 3 * math.pi:
+        o.label("sweep:1.5-turns-or-more")
     if abs(sweep) <= 0.011 and sweep != 0:
         o.label("sweep:tiny")
     conv = (lambda k=None: list(arc.as_cubic_curves(k))) if mode == "cubic" else (lambda k=None: list(arc.as_quad_curves(k)))
